@@ -462,10 +462,13 @@ def jobs(tier, seed):
         out.append(H.Job("rt-%s-two" % layout, job, "roundtrip", layout, [(2, 1), (3, 1)], None, split_depth=4, weight=100))
         if not q:
             out.append(H.Job("rt-%s-4x2" % layout, job, "roundtrip", layout, [(4, 2)], False, split_depth=6, weight=400))
+            out.append(H.Job("rt-%s-4x2-sparse" % layout, job, "roundtrip", layout, [(4, 2)], True, split_depth=6, weight=400))
+            out.append(H.Job("rt-%s-three" % layout, job, "roundtrip", layout, [(2, 1), (2, 2), (3, 1)], None, split_depth=6, weight=600))
+            out.append(H.Job("rt-%s-5x1" % layout, job, "roundtrip", layout, [(5, 1), (2, 1)], None, split_depth=6, weight=300))
     for binary in (True, False):
         for mult in (1, 2):
             out.append(H.Job("IS-%s-%d" % ("bin" if binary else "asc", mult), job, "IS", binary, mult, weight=5))
-    for n in range(1, (6 if q else 8) + 1):
+    for n in range(1, (6 if q else 10) + 1):
         out.append(H.Job("colstats-%d" % n, job, "colstats", n, 11, split_depth=6 if n > 5 else None, weight=2 ** n))
     decs = [-300, -101, -100, -99, -10, -1, 0, 1, 7, 98, 99, 100, 101, 300] if q else list(range(-310, 309, 7)) + [-101, -100, -99, 98, 99, 100, 101]
     digs = [1, 9, 16] if q else list(range(1, 17))
